@@ -248,3 +248,104 @@ func init() {
 	core.ParamRoles["gsfa/linkedlog.(*LinkedLog).ReadWithSize"] = map[string]int{"offset": 0, "size": 1}
 	core.ParamRoles["compactindexsized.(*Builder).Insert"] = map[string]int{"key": 0, "value": 1}
 }
+
+// addStep recognises every spelling of "add to a place":  p += e,  p = p + e,  p = e + p,  p++.
+// It returns the place, the addend (nil for p++, which adds the constant 1) and ok.
+func addStep(info *types.Info, st ast.Node) (place ast.Expr, addend ast.Expr, ok bool) {
+	switch s := st.(type) {
+	case *ast.IncDecStmt:
+		if s.Tok == token.INC {
+			return s.X, nil, true
+		}
+	case *ast.AssignStmt:
+		if len(s.Lhs) != 1 || len(s.Rhs) != 1 {
+			return nil, nil, false
+		}
+		switch s.Tok {
+		case token.ADD_ASSIGN:
+			return s.Lhs[0], core.Unparen(s.Rhs[0]), true
+		case token.ASSIGN:
+			be, isB := core.Unparen(s.Rhs[0]).(*ast.BinaryExpr)
+			if !isB || be.Op != token.ADD {
+				return nil, nil, false
+			}
+			same := func(a, b ast.Expr) bool {
+				a, b = core.Unparen(a), core.Unparen(b)
+				if oa, ob := core.ObjOf(info, a), core.ObjOf(info, b); oa != nil && oa == ob {
+					return core.ExprStr(a) == core.ExprStr(b)
+				}
+				return false
+			}
+			if same(s.Lhs[0], be.X) {
+				return s.Lhs[0], core.Unparen(be.Y), true
+			}
+			if same(s.Lhs[0], be.Y) {
+				return s.Lhs[0], core.Unparen(be.X), true
+			}
+		}
+	}
+	return nil, nil, false
+}
+
+// addsOne: the statement increments a place by the constant 1 (p++, p += 1, p = p + 1).
+func addsOne(info *types.Info, st ast.Node) (ast.Expr, bool) {
+	place, addend, ok := addStep(info, st)
+	if !ok {
+		return nil, false
+	}
+	if addend == nil {
+		return place, true
+	}
+	if v, isC := core.ConstInt(info, addend); isC && v == 1 {
+		return place, true
+	}
+	return nil, false
+}
+
+var swapCmpOp = map[token.Token]token.Token{token.LSS: token.GTR, token.GTR: token.LSS, token.LEQ: token.GEQ, token.GEQ: token.LEQ, token.EQL: token.EQL, token.NEQ: token.NEQ}
+
+// orientCmp reads a comparison with the given variable on the left, whichever side it was written on:
+// `i < n` and `n > i` both give (n, <).
+func orientCmp(info *types.Info, be *ast.BinaryExpr, o types.Object) (other ast.Expr, op token.Token, ok bool) {
+	if _, isCmp := swapCmpOp[be.Op]; !isCmp || o == nil {
+		return nil, 0, false
+	}
+	if core.ObjOf(info, stripConvs(info, be.X)) == o {
+		return be.Y, be.Op, true
+	}
+	if core.ObjOf(info, stripConvs(info, be.Y)) == o {
+		return be.X, swapCmpOp[be.Op], true
+	}
+	return nil, 0, false
+}
+
+// orientCmpBy is orientCmp with the left side chosen by a predicate on the operand.
+func orientCmpBy(be *ast.BinaryExpr, isLeft func(ast.Expr) bool) (left, right ast.Expr, op token.Token, ok bool) {
+	if _, isCmp := swapCmpOp[be.Op]; !isCmp {
+		return nil, nil, 0, false
+	}
+	if isLeft(be.X) {
+		return be.X, be.Y, be.Op, true
+	}
+	if isLeft(be.Y) {
+		return be.Y, be.X, swapCmpOp[be.Op], true
+	}
+	return nil, nil, 0, false
+}
+
+// constOnRight returns the comparison with its constant operand on the right (`Max < len(x)` reads `len(x) > Max`);
+// other expressions are returned unchanged.
+func constOnRight(info *types.Info, be *ast.BinaryExpr) *ast.BinaryExpr {
+	op, isCmp := swapCmpOp[be.Op]
+	if !isCmp {
+		return be
+	}
+	isConst := func(e ast.Expr) bool {
+		tv, ok := info.Types[core.Unparen(e)]
+		return ok && tv.Value != nil
+	}
+	if isConst(be.X) && !isConst(be.Y) {
+		return &ast.BinaryExpr{X: be.Y, OpPos: be.OpPos, Op: op, Y: be.X}
+	}
+	return be
+}
